@@ -104,6 +104,9 @@ func genC01Scenario(seed int64, idx int) c01Scenario {
 			// duplicate-value check, which only a configuration file can switch on
 			ls = append(ls, "---@enum start", "A2 = (v0)", "A3 = (v0)", "A4 = ((v1))", "A5 = (print(1))", "A6 = (v0.x)", "---@enum end")
 		}
+		// fixed lines (every tier): the ---@type forms with the enum / const words in every order
+		ls = append(ls, "---@type enum const table", "local ColorA = { Red = 1 }", "---@type const enum table", "local ColorB = { Red = 1 }", "---@type enum table", "local ColorC = { Red = 1 }",
+			"---@type const number", "local KConst = 1", "---@type enum const", "local ColorD = {}", "print(ColorA.Red, ColorB.Red, ColorC, KConst, ColorD)")
 		ls = append(ls, "print(v0, v1, v2)")
 		sc.files["main.lua"] = strings.Join(ls, "\n") + "\n"
 		if r.Chance(1, 2) {
